@@ -441,7 +441,7 @@ class Gen:
         self.nfun += 1
         kind = kind or r.choice(['normal', 'arrow', 'arrow'])
         fs = Scope(scope, is_fun=True)
-        n = r.choice([0, 1, 1, 2, 2, 3]) if nparams is None else nparams
+        n = r.choice([0, 1, 1, 2, 2, 2, 3, 3]) if nparams is None else nparams
         params = []
         for i in range(n):
             x = self.lex_name(fs)
@@ -455,9 +455,9 @@ class Gen:
                     d = ('evalvar', r.choice(nums))                       # direct eval in a parameter initialiser
                 elif k < 0.40 and nums:
                     d = ('bin', 'add', ('evalvar', r.choice(nums)), d)
-                elif k < 0.47:
+                elif k < 0.58:
                     d = ('evalvar', '__later__')                          # patched below: a LATER parameter (TDZ)
-                elif k < 0.52:
+                elif k < 0.66:
                     d = ('var', '__later__')
             params.append((x, d))
             fs.vars[x] = Var(x, 'param', 'num' if d is not None or r.random() < 0.85 else 'any')
@@ -833,9 +833,19 @@ class Gen:
                 for i in range(3):
                     body.append(('expr', ('log', ('logic', 'and', ('idx', ('var', v.name), ('num', i)),
                                                   ('call', ('idx', ('var', v.name), ('num', i)), [])))))
-            elif r.random() < 0.5 and v.kind in ('var', 'function'):
+            elif r.random() < 0.6 and (v.kind in ('var', 'function') or (isinstance(v.ty, tuple) and v.ty[0] == 'fun')):
                 if isinstance(v.ty, tuple) and v.ty[0] == 'fun':
                     body.append(('expr', ('log', ('call', ('var', v.name), [('num', 2)] * max(0, v.ty[1])))))
+                    mask = v.ty[2] if len(v.ty) > 2 else ()
+                    if any(mask) and r.random() < 0.8:
+                        # run the parameter initialisers (possibly hitting the TDZ of a later parameter)
+                        args = [('undef',) if (i < len(mask) and mask[i]) else ('num', 1) for i in range(v.ty[1])]
+                        if r.random() < 0.5:
+                            while args and args[-1] == ('undef',):
+                                args.pop()
+                        e = self.fresh()
+                        body.append(('try', [('expr', ('log', ('call', ('var', v.name), args)))], True, e,
+                                     [('expr', ('log', ('var', e)))], False, []))
                 else:
                     body.append(('expr', ('log', ('var', v.name))))
         c = r.random()
